@@ -55,7 +55,7 @@ class Session:
         rt = cc.roundtrip(iso, row, self.tmp, again=(fmt == "json"))
         key, val = self.builder.focus(row)
         rec = {
-            "k": "judge", "fmt": fmt, "kc": row["kc"], "vc": row["vc"], "target": row["target"], "sep": row["sep"],
+            "k": "judge", "fmt": fmt, "kc": row["kc"], "vc": row["vc"], "target": row["target"], "sep": row["sep"], "layout": row["layout"],
             "feat": cc.features(val, row.get("sep", "na")) if key is not None else NOFEAT,
             "focus": cc._esc(key) if key is not None else "",
             "stage": rt["stage"], "exc": rt["exc"], "pg": bool(rt["pg"]),
@@ -196,7 +196,8 @@ def run_codec(pid, fmts, tier, seed):
                 raise MachineryError(f"representative of value class {r['vc']} (rep {r['rep']}, sep {r['sep']}) has features {rec['feat']} "
                                      "outside Codec!VCTable")
             per_verdict[ans["verdict"]] = per_verdict.get(ans["verdict"], 0) + 1
-            if ans["ok"] and r["vc"] != "absent" and ans["impl"][0] != "unknown" and not ans["agrees"] and r["n"] not in shadow_refused:
+            if ans["ok"] and r["vc"] != "absent" and ans["impl"][0] != "unknown" and not ans["agrees"] and r["n"] not in shadow_refused \
+                    and not (rec["stage"] != "done" and ans["ldom"] != "in"):
                 # the transcription predicted something else for the focus entry (no verdict follows from that)
                 k = (r["fmt"], r["kc"], r["vc"], label(ans["impl"]), label(ans["focus"]))
                 drift[k] = drift.get(k, 0) + 1
